@@ -146,7 +146,8 @@ static void sub_amg() {
         // make_solver: the bundled system matrix must be the same operator, the solve must return a solution of the original system
         { typedef make_solver<RAMG, solver::fgmres<B>> S; boost::property_tree::ptree sp; sp.put_child("precond", p); sp.put("solver.maxiter", 200);
           std::vector<double> f = vf::random_vector(A.n, r); bool ref_ok = true, ref_conv = false;
-          try { S s1(A.tie(), sp); std::vector<double> x1(A.n, 0.0); auto r1 = s1(f, x1); ref_conv = std::get<1>(r1) <= 1e-8 && vf::true_relres(A, f, x1) <= 1.001e-8; }
+          try { S s1(A.tie(), sp); std::vector<double> x1(A.n, 0.0); auto r1 = s1(f, x1); double t1 = vf::true_relres(A, f, x1); ref_conv = std::get<1>(r1) <= 1e-8 && t1 <= 1.001e-8;
+                if (!std::isfinite(t1) || !std::isfinite(std::get<1>(r1))) { ref_ok = false; vf::obs_sum("degenerate_sorted_reference"); } }   // NaN hierarchy from the sorted matrix already (C01/C02 matter)
           catch (const std::exception &) { ref_ok = false; vf::obs_sum("sorted_reference_threw"); }   // class / generator limitation (e.g. singular coarse matrix), not a row-order matter
           if (ref_ok) try { S s2(Ash.tie(), sp); std::vector<double> x(A.n, 0.0); auto res = s2(f, x); vf::SolveSpec spec; spec.maxiter = 200; spec.must_converge = ref_conv;   // must solve whenever the solver built from the sorted matrix does
                 vf::check_solution(c, "make_solver<amg,fgmres>(unsorted)", A, f, x, std::get<0>(res), std::get<1>(res), spec);
@@ -178,7 +179,7 @@ static void sub_coupled() {
         // make_solver over a coupled preconditioner built from unsorted rows must still return a solution of the original system
         { typedef make_solver<preconditioner::cpr<AMG, SP0>, solver::fgmres<B>> S; typename S::params prm; prm.precond.block_size = b; prm.precond.pprecond.coarse_enough = 8; prm.solver.maxiter = 300;
           std::vector<double> f = vf::random_vector(n, r); bool ref_ok = true, ref_conv = false;
-          try { S s1(A.tie(), prm); std::vector<double> x1(n, 0.0); auto r1 = s1(f, x1); ref_conv = std::get<1>(r1) <= 1e-8 && vf::true_relres(A, f, x1) <= 1.001e-8; } catch (const std::exception &) { ref_ok = false; vf::obs_sum("sorted_reference_threw"); }
+          try { S s1(A.tie(), prm); std::vector<double> x1(n, 0.0); auto r1 = s1(f, x1); double t1 = vf::true_relres(A, f, x1); ref_conv = std::get<1>(r1) <= 1e-8 && t1 <= 1.001e-8; if (!std::isfinite(t1) || !std::isfinite(std::get<1>(r1))) { ref_ok = false; vf::obs_sum("degenerate_sorted_reference"); } } catch (const std::exception &) { ref_ok = false; vf::obs_sum("sorted_reference_threw"); }
           if (ref_ok) try { S s2(Ash.tie(), prm); std::vector<double> x(n, 0.0); auto res = s2(f, x); vf::SolveSpec spec; spec.maxiter = 300; spec.must_converge = ref_conv; vf::check_solution(c, "make_solver<cpr,fgmres>(unsorted)", A, f, x, std::get<0>(res), std::get<1>(res), spec); }
           catch (const std::exception &e) { c.fail("make_solver<cpr,fgmres>:exception-on-unsorted-rows", e.what()); } }
         c.nontrivial(5); vf::sample("roworder_coupled", J().n("block", b).n("cells", cells).n("n", n).s("shuffle", rev ? "reversed" : "random"));
